@@ -29,7 +29,6 @@ import (
 	"errors"
 	"fmt"
 	"net"
-	"os"
 	"strings"
 	"sync"
 	"time"
@@ -99,9 +98,6 @@ func (k *kaserver) start(f []string) string {
 			if rerr != nil {
 				k.log.add("c")
 				return
-			}
-			if os.Getenv("KA_DEBUG") != "" {
-				fmt.Fprintln(os.Stderr, "peer got", fr)
 			}
 			switch x := fr.(type) {
 			case *http2.PingFrame:
